@@ -36,7 +36,7 @@ pub fn run(input: &Tree) -> Option<Tree> {
     let state = mk_state(l.get(2)?, &strings)?;
     match l.first()?.int()? {
         0 => Some(match state.run_to_completion() {
-            Ok(s) => tl![A(0), state_tree(&s, &strings), A(0)],
+            Ok(s) => tl![A(0), state_tree(&s, &strings), A(0), ab(inputs_intact(&s, l.get(2)?))],
             Err(e) => {
                 let d = format!("{e:?}");
                 let k = if d.contains("Overflow { stack_type") {
@@ -48,14 +48,15 @@ pub fn run(input: &Tree) -> Option<Tree> {
                 } else {
                     4
                 };
-                tl![A(2), state_tree(&e.into_state(), &strings), A(k)]
+                let st = e.into_state();
+                tl![A(2), state_tree(&st, &strings), A(k), ab(inputs_intact(&st, l.get(2)?))]
             }
         }),
         1 => {
             let p = mk_prog(l.get(3)?, &strings)?;
             let before = state.clone();
             Some(match p.perform(state) {
-                Ok(s) => tl![A(0), state_tree(&s, &strings), A(0), A(0)],
+                Ok(s) => tl![A(0), state_tree(&s, &strings), A(0), ab(inputs_intact(&s, l.get(2)?))],
                 Err(e) => {
                     let class = if e.is_recoverable() { 1 } else { 2 };
                     let k = errkind(e.error());
